@@ -79,6 +79,12 @@ func c17Keys() []c17Key {
 	ks = append(ks, c17Key{Name: "rsa1024-opaque", Pub: &r1024.PublicKey, Priv: opaqueSigner{r1024}, Family: "rsa"})
 	p256 := ecKeyOn(elliptic.P256(), "c17-opaque")
 	ks = append(ks, c17Key{Name: "ecdsa-P-256-opaque", Pub: &p256.PublicKey, Priv: opaqueSigner{p256}, Family: "ec", ECDHOK: true})
+	// an ECDSA key whose curve is given as bare parameters (what x509 parsing of explicit parameters, a
+	// test double or another library yields): an ECDSA key for signing; crypto/ecdh does not know it
+	pp := ecKeyOn(elliptic.P256(), "c17-params-curve")
+	ppk := &ecdsa.PrivateKey{PublicKey: ecdsa.PublicKey{Curve: elliptic.P256().Params(), X: pp.X, Y: pp.Y}, D: pp.D}
+	ks = append(ks, c17Key{Name: "ecdsa-P-256-as-CurveParams", Pub: &ppk.PublicKey, Priv: ppk, Family: "ec"})
+	ks = append(ks, c17Key{Name: "ecdsa-P-256-as-CurveParams-opaque", Pub: &ppk.PublicKey, Priv: opaqueSigner{ppk}, Family: "ec"})
 	// foreign key types
 	edPub := ed.Public().(ed25519.PublicKey)
 	xk, _ := ecdh.X25519().NewPrivateKey(make([]byte, 32))
